@@ -27,7 +27,7 @@ package cors
 //@ func Middleware.Wrap$1
 //@   props C02 C03 C09 C11 C16 C17 C18
 //@   allocs <= 8
-//@   uses glob_singletons fetch_list_single_token fetch_list_star fetch_hdr_star fetch_hdr_star_auth browser_acrh_nonempty approved_iff_all_listed mem_empty
+//@   uses glob_singletons fetch_list_single_token fetch_list_star fetch_hdr_star fetch_hdr_star_auth browser_acrh_nonempty approved_iff_all_listed mem_empty method_tables
 //@   frozen E! MP! MV! F!origins_node F!util_Set F!cors_internalConfig F!http_Request
 //@   requires m != nil && r != nil
 //@   requires hdr(w) != r.Header
@@ -96,7 +96,7 @@ package cors
 //@   local name string
 //@   local err *cfgerrors.UnacceptableMethodError
 //@   frozen E! F!util_Set
-//@   uses mem_empty
+//@   uses mem_empty method_tables
 //@   requires icfg != nil && icfg > 0
 //@   requires !icfg.allowAnyMethod && len(icfg.allowedMethods.elems) == 0 && SetInv(icfg.allowedMethods)
 //@   assigns icfg.allowAnyMethod
@@ -129,7 +129,7 @@ package cors
 //@   local normalized string
 //@   local s []string
 //@   frozen E! F!util_Set
-//@   uses mem_empty
+//@   uses mem_empty request_header_tables
 //@   requires icfg != nil && icfg > 0
 //@   requires !icfg.asteriskReqHdrs && !icfg.allowAuthorization && len(icfg.allowedReqHdrs.elems) == 0 && SetInv(icfg.allowedReqHdrs) && icfg.acah == nil
 //@   assigns icfg.asteriskReqHdrs
@@ -168,7 +168,7 @@ package cors
 //@   local err *cfgerrors.UnacceptableHeaderNameError
 //@   local normalized string
 //@   frozen E! F!util_Set
-//@   uses mem_empty
+//@   uses mem_empty response_header_tables
 //@   requires icfg != nil && icfg > 0
 //@   assigns icfg.aceh
 //@   ensures unchanged_below("E!Str")
